@@ -150,8 +150,8 @@ _MQ_ASSUME = [
 ]
 CHECKS["C15"] = dict(
     pkg="props/c15", level="fault_enumeration", gomaxprocs=1, replay_reps=20,
-    rule="histories of 1-14 operations over 2 peers x 3 requests: transactions of 1-4 response operations (blocks 1 B - 1.9 KB, or up to 300 KiB in the thorough tier so that transactions spill over several messages; extension data 0 - 1.2 KB; status; finish) issued through real response streams by one worker per request, connect / disconnect notifications, stalling and un-stalling a peer's sends; 0-4 SendMsg failures and 0-3 connect failures at generated indices, 1-3 retries, small per-peer / total limits so that reservations wait; one case in four (C17: two in three) is built around the pattern 'send stalls, peer disconnects, is sent to again, reconnects, send resumes'. Oracle: no data is queued after its reservation failed; no release exceeds what the peer holds; at final quiescence (every gate open, virtual time advanced repeatedly) nothing is still waiting for memory and every peer's and the total accounted memory is zero. Non-trivial: a request with >= 2 messages and a send/connect fault, or extension data.",
-    assumptions=_MQ_ASSUME + ["histories in the class of known finding C16-built-after-queue-exit are excluded and counted"],
+    rule="histories of 1-14 operations over 2 peers x 3 requests: transactions of 1-4 response operations (blocks 1 B - 1.9 KB, or up to 300 KiB in the thorough tier so that transactions spill over several messages; extension data 0 - 1.2 KB; status; finish) issued through real response streams by one worker per request, connect / disconnect notifications, stalling and un-stalling a peer's sends; 0-4 SendMsg failures and 0-3 connect failures at generated indices, 1-3 retries, small per-peer / total limits so that reservations wait; a quarter of the cases (C17: half) are built around the pattern 'send stalls, peer disconnects, is sent to again, reconnects, send resumes', a quarter around 'a send fails as often as it is retried while further parts of the same request are queued behind it or wait for memory', an eighth around 'several messages of 60-500 KiB pile up behind a stalled send'. Oracle: no data is queued after its reservation failed; no release exceeds what the peer holds; at final quiescence (every gate open, virtual time advanced repeatedly) nothing is still waiting for memory and every peer's and the total accounted memory is zero. Non-trivial: a request with >= 2 messages and a send/connect fault, or extension data.",
+    assumptions=_MQ_ASSUME + ["histories in the classes of known findings C16-built-after-queue-exit and C15-old-queue-releases-successor are excluded and counted; both class predicates are computed from the history up to the final observation, never from the harness's own teardown"],
     quick=dict(shards=2, timeout=400), thorough=dict(shards=16, timeout=3000),
     level_text="Generated operation/fault histories against recording wrappers around the real allocator; exact zero-balance oracle at quiescence.",
     level_note="Observes the allocator through a wrapper; intra-step interleavings are whatever the Go scheduler picks.",
